@@ -310,7 +310,49 @@ func c04askBody() {
 	sched.SetOutcome(fmt.Sprintf("redirects=%d", cl.Redirects(0)))
 }
 
+// C04 (S): a pipeline of commands on one key is redirected to a node the proxy has no connection to yet
+// (the promoted replica); the redirected commands must reach it in order.
+func c04pipelineBody() {
+	w := c04setup()
+	cl := w.cl
+	c := w.s.NewClient("c0")
+	c.Do("SET", w.kb, "0")
+	refExec(w.s.ref, []string{"SET", w.kb, "0"})
+	sched.WaitQuiescent()
+	kind := sched.Choose(sched.ClsInput, 2, "kind")
+	if kind == 0 {
+		cl.Failover(w.r0) // the old master stays up and answers MOVED
+	} else {
+		cl.SetMigrating(0, w.m1)
+		cl.MigrateKey(w.kb) // kb now lives on the target: the source answers ASK
+	}
+	n := 3
+	var raw []byte
+	for i := 0; i < n; i++ {
+		raw = append(raw, resp.Encode(resp.Cmd("INCR", w.kb))...)
+	}
+	c.Send(raw)
+	sched.WaitQuiescent()
+	rs, _ := c.Pending()
+	if len(rs) != n {
+		sched.Fail("pipelined-redirected-commands-lost", fmt.Sprintf("%d replies for %d commands", len(rs), n))
+	}
+	for i, r := range rs {
+		if !resp.Equal(r, resp.Int(int64(i+1))) {
+			sched.Fail("pipelined-redirected-commands-reordered", fmt.Sprintf("replies %v to %d pipelined INCRs of one key", rs, n))
+		}
+	}
+	sched.SetOutcome(fmt.Sprintf("kind=%d", kind))
+}
+
 func init() {
+	sched.Register(&sched.Scenario{Name: "C04/pipelined-redirect", Setup: func(tier string) (sched.Config, func()) {
+		b := sched.Bounds{P: 1, F: 1, Sel: 0}
+		if tier == "thorough" {
+			b = sched.Bounds{P: 2, F: 2, Sel: 1}
+		}
+		return sched.Config{Bounds: b, Iterative: true, MaxSteps: 100000}, c04pipelineBody
+	}})
 	sched.Register(&sched.Scenario{Name: "C04/histories", Custom: c04histories, ReplayCustom: func(in json.RawMessage) []sched.Failure {
 		var cs c04case
 		json.Unmarshal(in, &cs)
